@@ -5,8 +5,9 @@
 (* the ids taken on an accepted path in the variable kf.                         *)
 EXTENDS Map, TLC
 
-KnownIds == {"C06-KF1", "C06-KF2"}
+KnownIds == {"C06-KF1", "C06-KF2", "C06-KF3", "C06-KF4", "C06-KF5"}
 
+Has3(e) == "via" \in DOMAIN e
 StubVariants == {"small_inline_4", "small_inline_16", "cache_optimized", "string_optimized"}
 
 (* C06-KF1: the SmallInline / CacheOptimized / StringOptimized storage strategies of    *)
@@ -16,18 +17,49 @@ G1(e, subj) == /\ subj.fam = "zhm" /\ subj.variant \in StubVariants
 KF1(e, subj) == G1(e, subj) /\ UNCHANGED m
 
 (* C06-KF2: SmallMap::iter() panics with an explicit "not yet implemented" message once   *)
-(* the map has been promoted to its large representation.  Read-only: nothing changes.    *)
-G2(e, subj) == /\ subj.fam = "small"
-               /\ e.op = "panic" /\ e.in \in {"iter", "probe"}
+(* the map has been promoted to its large representation (clone() and == iterate too).    *)
+(* Read-only: nothing changes.                                                            *)
+(* g.big: the map has held more than 8 entries since its last clear (ghost of the trace spec) *)
+G2(e, subj, g) == /\ subj.fam = "small" /\ g.big
+               /\ e.op = "panic" /\ e.in \in {"iter", "probe", "clone"}
                /\ e.msg = "Iterator not yet implemented for large maps with ZiporaHashMap"
-KF2(e, subj) == G2(e, subj) /\ UNCHANGED m
+KF2(e, subj, g) == G2(e, subj, g) /\ UNCHANGED m
+
+(* C06-KF3 (patch C06-20): SmallMap<u8,V>::get_fast(&0) answers Some(uninitialised slot) when  *)
+(* the inline map holds 5..7 keys and key 0 is not among them (zero padding of the SIMD lanes). *)
+G3(e, subj) == /\ subj.fam = "small" /\ subj.variant = "u8_fast"
+               /\ e.op = "get" /\ Has3(e) /\ e.via = "get_fast"
+               /\ e.k = 0 /\ 0 \notin DOMAIN m /\ Cardinality(DOMAIN m) \in 5..7
+               /\ e.r /= None
+KF3(e, subj) == G3(e, subj) /\ UNCHANGED m
+
+(* C06-KF4 (patch C06-21): EasyHashMap::retain shows the predicate a copy of every value: what *)
+(* the predicate writes through its &mut V is lost.  Which entries are kept is as specified.    *)
+G4(e, subj) == /\ subj.fam = "easy"
+               /\ e.op = "retain" /\ e.mut
+KF4(e, subj) == /\ G4(e, subj)
+                /\ IsEnumeration(e.seen)
+                /\ RetainCore(LAMBDA k, v : CASE e.pk = "kmod" -> (k % e.a) /= e.b [] e.pk = "vlt" -> v < e.a
+                                              [] e.pk = "all" -> TRUE [] e.pk = "none" -> FALSE,
+                              LAMBDA v : v)
+
+(* C06-KF5 (patch C06-22): ZiporaHashMap::clone() returns an empty map of the same configuration. *)
+G5(e, subj) == /\ subj.fam = "zhm" /\ subj.variant \in {"default_clone", "with_capacity_100_clone"}
+               /\ e.op = "clone"
+KF5(e, subj) == G5(e, subj) /\ m' = Empty
 
 (* guard (state predicate) and action of each deviation.  In KF mode a deviation whose   *)
 (* guard holds REPLACES the contract action for that event.                               *)
-DevApplies(id, e, subj) ==
+DevApplies(id, e, subj, g) ==
     \/ id = "C06-KF1" /\ G1(e, subj)
-    \/ id = "C06-KF2" /\ G2(e, subj)
-KnownDeviation(id, e, subj) ==
+    \/ id = "C06-KF2" /\ G2(e, subj, g)
+    \/ id = "C06-KF3" /\ G3(e, subj)
+    \/ id = "C06-KF4" /\ G4(e, subj)
+    \/ id = "C06-KF5" /\ G5(e, subj)
+KnownDeviation(id, e, subj, g) ==
     \/ id = "C06-KF1" /\ KF1(e, subj)
-    \/ id = "C06-KF2" /\ KF2(e, subj)
+    \/ id = "C06-KF2" /\ KF2(e, subj, g)
+    \/ id = "C06-KF3" /\ KF3(e, subj)
+    \/ id = "C06-KF4" /\ KF4(e, subj)
+    \/ id = "C06-KF5" /\ KF5(e, subj)
 =============================================================================
